@@ -921,6 +921,43 @@ impl LeastSquaresProblem<f64, Dyn, U3> for CircleFit<'_> {
         Some(jac)
     }
 }
+/// Verification hooks (cargo feature `verif`): drive the private circle-fit least-squares problem
+/// directly, so that its residuals, weights and Jacobian can be observed for any parameter history.
+#[cfg(feature = "verif")]
+pub mod verif {
+    use super::*;
+
+    pub struct CircleFitDriver<'a>(CircleFit<'a>);
+
+    impl<'a> CircleFitDriver<'a> {
+        pub fn new(points: &'a [Point2], mode: BestFit, initial: &Circle2) -> Self {
+            Self(CircleFit::new(points, mode, initial))
+        }
+
+        pub fn set_params(&mut self, x: f64, y: f64, r: f64) {
+            self.0.set_params(&Vector3::new(x, y, r));
+        }
+
+        pub fn params(&self) -> [f64; 3] {
+            let p = self.0.params();
+            [p[0], p[1], p[2]]
+        }
+
+        pub fn residuals(&self) -> Vec<f64> {
+            self.0.residuals().unwrap().iter().copied().collect()
+        }
+
+        pub fn weights(&self) -> Vec<f64> {
+            self.0.weights.iter().copied().collect()
+        }
+
+        pub fn jacobian(&self) -> Vec<[f64; 3]> {
+            let j = self.0.jacobian().unwrap();
+            (0..j.nrows()).map(|i| [j[(i, 0)], j[(i, 1)], j[(i, 2)]]).collect()
+        }
+    }
+}
+
 #[cfg(test)]
 mod tests {
     use super::*;
